@@ -18,7 +18,8 @@ LEVEL = "exploration"
 RULE = (
     "full Cartesian lattice omega (log-spaced in [3e-3,50]) x depth (log-spaced in [1e-2,1e4] plus inf) "
     "x call shape {scalar, array+scalar depth, array+array depth, one mixed-regime array, transposed mixed array}; "
-    "plus spectrum objects x layouts x per-point depth patterns. A lattice point is non-trivial when the "
+    "plus spectrum objects x layouts x per-point depth patterns; plus every history of length <= 3 over {read wavenumber, "
+    "group_velocity, wavelength, wave_speed} and four in-place changes of the depth on one object. A lattice point is non-trivial when the "
     "solver's closed-form first guess does not already satisfy the 1e-3 tolerance (a Newton step is needed); "
     "distinct = distinct (omega, depth) pairs."
 )
@@ -26,7 +27,8 @@ ASSUMPTIONS = [
     "lattice, not continuum: nothing is claimed between lattice points",
     "g = 9.81 (library default)",
 ]
-REQUIRED_CATEGORIES = ["kd<0.3", "0.3<=kd<=5", "kd>5", "newton_needed", "inf_depth", "spectrum_nan_depth"]
+REQUIRED_CATEGORIES = ["kd<0.3", "0.3<=kd<=5", "kd>5", "newton_needed", "inf_depth", "spectrum_nan_depth",
+                       "history_executed", "history_read_mutate_read"]
 
 G = 9.81
 SHAPES = ["scalar", "arr_scalar_depth", "arr_arr", "mixed", "mixed_T"]
@@ -43,6 +45,7 @@ def units(tier):
     us = [{"name": f"fn:{s}", "kind": "fn", "shape": s} for s in SHAPES]
     for layout in ("scalar", "time", "time_lat", "flat"):
         us.append({"name": f"spectrum:{layout}", "kind": "spectrum", "layout": layout})
+        us.append({"name": f"history:{layout}", "kind": "history", "layout": layout})
     return us
 
 
@@ -250,5 +253,96 @@ def run_spectrum(unit):
     return r
 
 
+HIST_READS = ["wavenumber", "group_velocity", "wavelength", "wave_speed"]
+HIST_MUTATORS = ["setitem_depth", "dataset_depth", "depth_nan", "values_write"]
+
+
+def run_history(unit):
+    """Histories on ONE spectrum object: every sequence of length <= 3 over the read operations and the
+    in-place changes of the depth (a result cached on the object would survive them).  After every
+    read the result must be the dispersion functions at the depth the object holds *now*."""
+    import itertools
+
+    c = Collector()
+    layout = unit["layout"]
+    f = FGRIDS[0]
+    ops = HIST_READS + HIST_MUTATORS
+    for n in (1, 2, 3):
+        for hist in itertools.product(ops, repeat=n):
+            if not any(h in HIST_READS for h in hist):
+                continue
+            if layout == "scalar":
+                s = make_1d(f, np.ones(len(f)), depth=50.0)
+            elif layout == "time":
+                s = make_1d(f, np.ones((3, len(f))), depth=np.array([5.0, 50.0, np.inf]))
+            else:
+                s = make_1d(f, np.ones((2, 2, len(f))), depth=np.array([[5.0, 50.0], [np.inf, 0.5]]), flat=(layout == "flat"))
+            step = 0
+            for h in hist:
+                step += 1
+                cur = np.asarray(s.dataset["depth"].values, dtype=float)
+                if h == "setitem_depth":
+                    s["depth"] = s.dataset["depth"] * 0.5 + 1.0
+                elif h == "dataset_depth":
+                    s.dataset["depth"] = s.dataset["depth"] * 3.0
+                elif h == "depth_nan":
+                    s.dataset["depth"] = s.dataset["depth"] * np.nan
+                elif h == "values_write":
+                    new = np.where(np.isfinite(cur), cur + 7.0, 20.0)
+                    s.dataset["depth"] = s.dataset["depth"].copy(data=new)
+                else:
+                    depv = np.asarray(s.dataset["depth"].values, dtype=float)
+                    depv = np.where(np.isnan(depv), np.inf, depv)
+                    arr = getattr(s, h)
+                    arr = arr() if callable(arr) else arr
+                    vals = np.asarray(arr.values, dtype=float)
+                    W = np.broadcast_to(2 * np.pi * f, vals.shape)
+                    D = np.broadcast_to(depv[..., None], vals.shape)
+                    c.evaluations += vals.size
+                    key = {"family": "history", "layout": layout, "history": list(hist), "step": step, "read": h}
+                    for idx in np.ndindex(vals.shape):
+                        w_, d_ = float(W[idx]), float(D[idx])
+                        if h == "wavenumber":
+                            kk = vals[idx]
+                        elif h == "wavelength":
+                            kk = 2 * np.pi / vals[idx]
+                        elif h == "wave_speed":
+                            kk = w_ / vals[idx]
+                        else:
+                            kk = None
+                        if kk is not None:
+                            ok = np.isfinite(kk) and kk > 0 and abs(float(disp(kk, d_)) - w_) <= 1e-3 * w_
+                        else:
+                            # group velocity: compare with d omega / dk at the k that solves the relation at d_
+                            k0 = w_ * w_ / G if not np.isfinite(d_) else None
+                            if k0 is None:
+                                lo, hi = 1e-12, max(w_ * w_ / G, w_ / np.sqrt(G * d_)) * 4 + 1.0
+                                for _ in range(200):
+                                    mid = 0.5 * (lo + hi)
+                                    if float(disp(mid, d_)) < w_:
+                                        lo = mid
+                                    else:
+                                        hi = mid
+                                k0 = 0.5 * (lo + hi)
+                            hh = 1e-5 * k0
+                            ref = (float(disp(k0 + hh, d_)) - float(disp(k0 - hh, d_))) / (2 * hh)
+                            ok = np.isfinite(vals[idx]) and abs(vals[idx] - ref) <= 4e-3 * ref
+                        if not ok:
+                            c.violation(key, f"{h} after history {list(hist)[:step]} is not the dispersion function at the "
+                                             f"object's current depth {d_!r} (omega {w_:.4g}, got {vals[idx]!r})")
+                            break
+            c.cat("history_executed")
+            if any(hist[i] in HIST_READS and any(m in HIST_MUTATORS for m in hist[i + 1:]) and any(r in HIST_READS for r in hist[i + 2:]) for i in range(len(hist))):
+                c.cat("history_read_mutate_read")
+                c.nontriv((layout, hist))
+            c.case({"layout": layout, "hist": list(hist)})
+    c.sample({"family": "history", "layout": layout, "example": ["wavenumber", "setitem_depth", "wavenumber"]})
+    return c.result()
+
+
 def run_unit(unit):
-    return run_fn(unit) if unit["kind"] == "fn" else run_spectrum(unit)
+    if unit["kind"] == "fn":
+        return run_fn(unit)
+    if unit["kind"] == "history":
+        return run_history(unit)
+    return run_spectrum(unit)
